@@ -31,17 +31,18 @@ type c14Case struct {
 	Steps   []c14Step           `json:"steps"`
 	Roles   map[string][]string `json:"roles,omitempty"`  // matching-*: id -> roles
 	Values  []string            `json:"values,omitempty"` // matching-*: requested roles
+	WriteTx bool                `json:"writeTx,omitempty"` // the cursors are opened inside a writing transaction
 }
 
 // kinds whose elements are bbolt keys / bucket names (non-empty by bbolt's own precondition)
-var c14PlainKinds = map[string]bool{"bolt": true, "open-seekable": true, "open-cursor": true, "setindex-keys": true, "iterate-ids": true, "iterate-valid-ids": true}
+var c14PlainKinds = map[string]bool{"bolt": true, "open-seekable": true, "open-cursor": true, "setindex-keys": true, "iterate-ids": true, "iterate-valid-ids": true, "link-setlinks": true}
 
 var c14Kinds = []string{"bolt", "open-seekable", "open-cursor", "iterate-string-list", "iterate-string-list-dir", "open-typed-cursor", "related-entities",
 	"link-iterate", "rc-link-iterate", "setindex-value", "setindex-keys", "set-symbol-runtime", "iterate-ids", "iterate-valid-ids", "empty", "filtered",
-	"treeset", "union", "matching-allof", "matching-anyof"}
+	"treeset", "union", "matching-allof", "matching-anyof", "link-setlinks"}
 
 // kinds that only go forward
-var c14ForwardOnly = map[string]bool{"open-seekable": true, "iterate-string-list": true, "link-iterate": true, "set-symbol-runtime": true, "iterate-ids": true, "iterate-valid-ids": true, "filtered": true, "empty": true}
+var c14ForwardOnly = map[string]bool{"open-seekable": true, "iterate-string-list": true, "link-iterate": true, "link-setlinks": true, "set-symbol-runtime": true, "iterate-ids": true, "iterate-valid-ids": true, "filtered": true, "empty": true}
 
 var c14Universe = [][]byte{{}, []byte("a"), []byte("a\x00"), []byte("ab"), []byte("b"), {0xff}, {0xff, 0xff}, []byte("a\xff"), {0x05}, {0x07, 'x'}, []byte("B"),
 	// long elements that differ only after a common prefix of 63 / 64 / 130 bytes
@@ -91,7 +92,7 @@ func genC14(t *rapid.T) c14Case {
 	case "empty":
 	default:
 		c.Elems = genElems(t, "s", allowEmpty)
-		if c.Kind == "union" || c.Kind == "filtered" {
+		if c.Kind == "union" || c.Kind == "filtered" || c.Kind == "link-setlinks" {
 			c.Elems2 = genElems(t, "s2", allowEmpty)
 		}
 	}
@@ -110,6 +111,7 @@ func genC14(t *rapid.T) c14Case {
 		}
 		c.Steps = append(c.Steps, st)
 	}
+	c.WriteTx = rapid.IntRange(0, 3).Draw(t, "writeTx") == 0
 	return c
 }
 
@@ -145,8 +147,10 @@ type c14Stores struct {
 
 func c14BuildStores() *c14Stores {
 	s := &c14Stores{}
-	s.as = boltz.NewBaseStore(boltz.StoreDefinition[boltz.Entity]{EntityType: "as", BasePath: []string{"root"}})
-	s.bs = boltz.NewBaseStore(boltz.StoreDefinition[boltz.Entity]{EntityType: "bs", BasePath: []string{"root"}})
+	// both stores are handed the same base path slice, assembled by append (so it has spare capacity)
+	base := append(make([]string, 0, 4), "root")
+	s.as = boltz.NewBaseStore(boltz.StoreDefinition[boltz.Entity]{EntityType: "as", BasePath: base})
+	s.bs = boltz.NewBaseStore(boltz.StoreDefinition[boltz.Entity]{EntityType: "bs", BasePath: base})
 	s.as.AddIdSymbol("id", ast.NodeTypeString)
 	s.bs.AddIdSymbol("id", ast.NodeTypeString)
 	s.rolesSym = s.as.AddSetSymbol("roles", ast.NodeTypeString)
@@ -230,6 +234,23 @@ func buildCursor2(c c14Case, db *bbolt.DB) (open, second func(tx *bbolt.Tx) ast.
 		open = func(tx *bbolt.Tx) ast.SetCursor { return s.as.GetRelatedEntitiesCursor(tx, "a1", "blinks", fwd) }
 	case "link-iterate":
 		err = put(true, "root", "as", "a1", "blinks")
+		open = func(tx *bbolt.Tx) ast.SetCursor { return s.links.IterateLinks(tx, []byte("a1")) }
+	case "link-setlinks":
+		// the link set is established through the collection itself: linked to Elems first, then set to Elems2
+		now := dedupSorted(c.Elems2)
+		expect = now
+		err = db.Update(func(tx *bbolt.Tx) error {
+			boltz.GetOrCreatePath(tx, "root", "as", "a1")
+			for _, e := range dedupSorted(append(append([][]byte{}, c.Elems...), c.Elems2...)) {
+				if b := boltz.GetOrCreatePath(tx, "root", "bs", e); b.HasError() {
+					return b.GetError()
+				}
+			}
+			if err := s.links.AddLinks(tx, "a1", asc...); err != nil {
+				return err
+			}
+			return s.links.SetLinks(tx, "a1", reverseStrings(now))
+		})
 		open = func(tx *bbolt.Tx) ast.SetCursor { return s.links.IterateLinks(tx, []byte("a1")) }
 	case "rc-link-iterate":
 		err = db.Update(func(tx *bbolt.Tx) error {
@@ -420,7 +441,22 @@ func runC14(c c14Case) kit.Result {
 	}
 	seekAbsent := false
 	label := fmt.Sprintf("cursor %s (reverse=%v) over %q", c.Kind, c.Reverse, expect)
-	res.Err = db.DB.View(func(tx *bbolt.Tx) error {
+	view := db.DB.View
+	if c.WriteTx {
+		// cursors only read: inside a writing transaction they enumerate the same set
+		view = db.DB.Update
+		res.Classes = append(res.Classes, "inside-write-tx")
+	}
+	res.Err = view(func(tx *bbolt.Tx) error {
+		if c.Kind == "setindex-value" || c.Kind == "setindex-keys" {
+			// looking up values nobody holds gives empty cursors and leaves the index as it is
+			s := c14BuildStores()
+			for _, v := range []string{"zz-nobody", "a-nobody", "role-"} {
+				if probe := s.rolesIdx.OpenValueCursor(tx, []byte(v), !c.Reverse); probe == nil || probe.IsValid() {
+					return fmt.Errorf("%s: OpenValueCursor for the value %q, which no entity holds, is not an invalid cursor", label, v)
+				}
+			}
+		}
 		// 1. full enumeration from a fresh cursor
 		cur := open(tx)
 		if cur == nil {
